@@ -49,13 +49,20 @@ def run(chk, scratch):
     if r.violated:
         raise vlib.Inconclusive("the path algebra of ZipSlip.tla violates %s" % r.violated)
     chk.add_tlc("ZipSlip: every entry name over the colliding alphabet x destination shape x kind, with the lexical oracle", r)
+    rt = vlib.run_tlc(scratch, [SPEC], "ZipSlip", "ZipSlip_stemtwice.cfg", workers=2, timeout=300, fast=True, parse_behaviours=False)
+    vlib.tlc_must_pass(rt, "ZipSlip_stemtwice")
+    chk.add_tlc("ZipSlip with the unpacking directory stripped of a second extension (must violate NestedRootBesideArchive)", rt)
+    if rt.violated != "NestedRootBesideArchive":
+        raise vlib.Inconclusive("sensitivity self-test failed: ZipSlip_stemtwice.cfg reported %s" % rt.violated)
     scen = r.behaviours
     chk.cov["model_scenarios"] = len(scen)
     rnd = random.Random(chk.seed)
     if not thorough:
         esc = [s for s in scen if s["escapes"]]
         ok = [s for s in scen if not s["escapes"]]
-        scen = rnd.sample(esc, 700) + rnd.sample(ok, 500)
+        compound = [s for s in scen if s["kind"] == "nested" and s["ext"] != "zip" and s["stem"] == ".."]
+        scen = rnd.sample(esc, 700) + rnd.sample(ok, 500) + rnd.sample(compound, 120)
+    chk.cov["nested_archives_with_compound_extension"] = sum(1 for s in scen if s["kind"] == "nested" and s["ext"] != "zip")
     # archives with chained symbolic-link entries (ZipLinks.tla): names lexically inside, real locations possibly not
     rl = vlib.run_tlc(scratch, [SPEC], "ZipLinks", "ZipLinks.cfg", workers=1, timeout=300, fast=True)
     vlib.tlc_must_pass(rl, "ZipLinks")
@@ -81,7 +88,7 @@ def run(chk, scratch):
     tr2, _ = common.record(vh, scratch, "c02", "c02-fuzz.ndjson", chk.seed, chk.tier, mode="fuzz", n=(20000 if thorough else 1000), timeout=3000)
     ev = judge(chk, scratch, tr2, "archives with names over raw bytes")
     chk.sample({"fuzz_begin": next(e for e in ev if e["ev"] == "Begin")})
-    chk.cov["rule"] = ("scenario = entry name of 1..3 components over {.., ., empty, A, B, ..., A..B, destZ} x leading separator x kind (file, directory, nested archive with stem S / .. / . / empty / A..B) x "
+    chk.cov["rule"] = ("scenario = entry name of 1..3 components over {.., ., empty, A, B, ..., A..B, destZ} x leading separator x kind (file, directory, nested archive with stem S / .. / . / empty / A..B and extension zip / tar.gz / TAR.zip) x "
                        "destination shape (absolute, trailing separator, relative to the working directory); materialised with archive/zip ('/' and doubled separators), extracted with Unzip / recursive "
                        "UnzipWithContextAndLimits on the OS filesystem and MemMapFs; fuzz = names over raw bytes (backslashes, control characters, UTF-16 / Shift-JIS looking sequences); non-trivial = the entry escapes")
     chk.assumptions += ["the harness only splits paths on '/'; cleaning, joining and containment are evaluated by TLC (Paths.tla)",
